@@ -527,6 +527,10 @@ fn recover(
         }
     }
 
+    // The pages rewritten above must be durable before the WAL that can redo them is discarded:
+    // otherwise a power loss after the (fsynced) truncation leaves neither.
+    ht_fd.sync_all()?;
+
     // Finally, we collapse the WAL file and fsync.
     writeout::truncate_wal(wal_fd, true)?;
 
